@@ -116,6 +116,7 @@ def check(run):
     if len(res) < min(len(order), 6):
         run.undecided("C13/bounded:threshold-sweep", "only %d thresholds finished within the budget" % len(res))
     ts = sorted(t for t, _, _ in res)
+    suspects = []
     for t, rows, err in sorted(res, key=lambda x: x[0]):
         if err is not None:
             fails.append(({"kind": "threshold", "reaction": _PICK[0], "t": t}, "rebalance raised %s at threshold %r" % (err, t)))
@@ -124,7 +125,21 @@ def check(run):
             cases += 1
             bad = compare(base[i], row, t)
             if bad:
-                fails.append(({"kind": "threshold", "reaction": i, "t": t}, bad))
+                suspects.append((i, t, bad))
+    # the MCS stage works under wall-clock time limits: under the load of the parallel sweep a large reaction can lose a search that it
+    # wins when run alone (that is C11 / C06 territory, not a dependence on the threshold).  A mismatch is therefore confirmed serially -
+    # the reaction alone at threshold 0 and at t, back to back - before it is reported
+    unstable = 0
+    for i, t, bad in suspects[:40]:
+        b0 = P.rebalance([i], confidence_threshold=0)
+        bt = P.rebalance([i], confidence_threshold=t)
+        bad2 = compare(b0[0], bt[0], t) if len(b0) == 1 and len(bt) == 1 else "row lost"
+        if bad2:
+            fails.append(({"kind": "threshold", "reaction": i, "t": t}, bad2))
+        else:
+            unstable += 1
+    if unstable:
+        run.notes.append("threshold sweep: %d mismatches seen under parallel load did not reproduce serially (search time limits; not reported)" % unstable)
     run.bounded("threshold-sweep", "%d reactions (%d with an MCS-based result) x %d thresholds incl. observed confidences and their float neighbours"
                 % (len(pick), len(pick) - len(others), len(ts)), cases, len(pick) * len(ts), fails[:8], False,
                 [{"thresholds": ts[:8], "confidences": confs[:5]}])
